@@ -8,6 +8,7 @@ mod alloc;
 mod codecs;
 mod dec;
 mod docs;
+mod evt; mod stk;
 mod ext;
 mod json;
 mod model;
@@ -29,7 +30,7 @@ const SMALL_UNIVERSE: u32 = 3;
 
 const USAGE: &str = "usage:
   vx_witness search <target> [--universe N] [--seed S] [--max-seconds T] [--jobs J]
-                    [--ignore TEXT].. [--collect]   (decoders, dec_all)
+                    [--ignore TEXT].. [--ignore-file PATH] [--collect] [--only FAMILY]..   (decoders, dec_all)
   vx_witness replay '<json>' | @path";
 
 fn die(msg: &str) -> ! {
@@ -91,7 +92,13 @@ fn cmd_search(args: &[String]) -> i32 {
                 jobs = value(a).parse().unwrap_or_else(|_| die("--jobs: not a number"));
             }
             "--ignore" => dec_opts.ignore.push(value(a)),
+            "--ignore-file" => {
+                let path = value(a);
+                let text = std::fs::read_to_string(&path).unwrap_or_else(|e| die(&format!("cannot read {}: {}", path, e)));
+                dec_opts.ignore.extend(text.lines().map(|l| l.trim()).filter(|l| !l.is_empty() && !l.starts_with('#')).map(|l| l.to_string()));
+            }
             "--collect" => dec_opts.collect = true,
+            "--only" => dec_opts.only.push(value(a)),
             _ if a.starts_with("--") => die(&format!("unknown option {}\n{}", a, USAGE)),
             _ => {
                 if target.is_some() {
@@ -103,6 +110,12 @@ fn cmd_search(args: &[String]) -> i32 {
         i += 1;
     }
     let target = target.unwrap_or_else(|| die(USAGE));
+    // change events (evt.rs: events | evt_keys | evt_seq), sticky indexes (stk.rs: sticky | stk_offset | stk_codec)
+    if evt::is_target(&target) || stk::is_target(&target) {
+        let deadline = max_seconds.map(|t| Instant::now() + Duration::from_secs_f64(t.max(0.0)));
+        let search = if evt::is_target(&target) { evt::cmd_search } else { stk::cmd_search };
+        return search(&target, universe, jobs, deadline);
+    }
     // targets outside the interval-set code (see ext.rs)
     if let Some(parts) = ext::targets_for(&target) {
         let _ = dec::OPTS.set(dec_opts);
@@ -113,7 +126,7 @@ fn cmd_search(args: &[String]) -> i32 {
         die(&format!("--universe must be in 1..={}", MAX_UNIVERSE));
     }
     let groups = search::groups_for(&target)
-        .unwrap_or_else(|| die(&format!("unknown target {:?}; targets: {} | {}", target, search::TARGETS, ext::TARGETS)));
+        .unwrap_or_else(|| die(&format!("unknown target {:?}; targets: {} | {} | {} | {}", target, search::TARGETS, ext::TARGETS, evt::TARGETS, stk::TARGETS)));
     let mut s = Search {
         n: universe,
         seed,
@@ -186,6 +199,10 @@ fn cmd_replay(args: &[String]) -> i32 {
     }
     if j.get("op").is_none() {
         die("replay: the JSON carries no case (no \"op\" field)");
+    }
+    if evt::owns(&j) || stk::owns(&j) {
+        let replay = if evt::owns(&j) { evt::cmd_replay } else { stk::cmd_replay };
+        return replay(&j).unwrap_or_else(|e| die(&format!("replay: {}", e)));
     }
     if ext::owns(&j) {
         return ext::cmd_replay(&j).unwrap_or_else(|e| die(&format!("replay: {}", e)));
